@@ -13,7 +13,7 @@ EXTENDS RegexVMCore, Json, IOUtils, TLC
 CONSTANT BlockSize
 Obs == JsonDeserialize(IOEnv.VERIF_OBS)
 N == Len(Obs)
-VARIABLES blk, i, culprit
+VARIABLES blk, i, culprit, failing
 
 \* a quantified group that can match the empty string: the translation loops over non-consuming instructions
 RECURSIVE NullableAlt(_)
@@ -37,12 +37,6 @@ CulpritOf(x) ==
       IF x.cpp = "hang" THEN (IF AnyTermAlt(x.tree, IsEmptyLoop) THEN <<"hang", "empty_loop">> ELSE <<"hang">>)
       ELSE IF x.cpp = "error" THEN <<"error">> ELSE <<"none">>]
 
-Blocks == 0..((N - 1) \div BlockSize)
-Init == blk \in Blocks /\ i = 0 /\ culprit = <<>>
-Next == /\ i = 0
-        /\ \E j \in (blk * BlockSize + 1)..(IF (blk + 1) * BlockSize < N THEN (blk + 1) * BlockSize ELSE N) :
-              i' = j /\ culprit' = CulpritOf(Obs[j])
-        /\ UNCHANGED blk
 
 \* strings without line breaks over the case alphabet, named by their position in the enumeration
 NoLineBreak(c) == c \notin {10, 11, 12, 13, 133, 8232, 8233}
@@ -53,31 +47,55 @@ Digits0(s, n, A) == IF n = 0 THEN 0 ELSE Digits0(s, n - 1, A) * Len(A) + (PosIn(
 Idx(s, A) == (IF Len(s) = 0 THEN 0 ELSE CountUpTo(Len(A), Len(s) - 1)) + Digits0(s, Len(s), A)
 Strings16(x) == StringsUpTo({c \in SeqToSet(x.alpha16) : NoLineBreak(c)}, IF x.maxlen > 3 THEN 3 ELSE x.maxlen)
 
-Judged == i > 0
-o == Obs[i]
 
 \* "the generated virtual-machine program for C++ is emitted without error" (both programs of pattern.cpp)
-Inv_EmittedWithoutError == Judged /\ o.accepted => o.outcome = "ok" /\ o.outcome16 # "exception"
+C_Inv_EmittedWithoutError(o) == o.accepted => o.outcome = "ok" /\ o.outcome16 # "exception"
 \* the control flow is closed: targets exist, no thread runs off the end, range lists as the C++ constructors demand
-Inv_ProgramWellFormed ==
-  Judged /\ o.accepted =>
+C_Inv_ProgramWellFormed(o) ==
+  o.accepted =>
      /\ (o.outcome = "ok" => WellFormedProgram(o.prog) /\ RangesWellFormed(o.prog))
      /\ (o.outcome16 = "ok" => WellFormedProgram(o.prog16) /\ RangesWellFormed(o.prog16))
 \* "run by ... any implementation of the documented instruction semantics, it accepts a string exactly when the pattern
 \* fully matches it, on strings without line breaks"
-Inv_VMMatchesLikePattern ==
-  Judged /\ o.accepted /\ o.outcome = "ok" /\ WellFormedProgram(o.prog) =>
+C_Inv_VMMatchesLikePattern(o) ==
+  o.accepted /\ o.outcome = "ok" /\ WellFormedProgram(o.prog) =>
      \A s \in Strings(o) : VMAccepts(o.prog, s) <=> FullMatch(o.tree, s)
 \* the second program of pattern.cpp (for 16-bit wchar_t), translated from the rewritten tree, against that tree, on
 \* code-unit strings (whether the rewritten tree means the same as the original is C17)
-Inv_VMMatchesLikePattern16 ==
-  Judged /\ o.accepted /\ o.outcome16 = "ok" /\ WellFormedProgram(o.prog16) =>
+C_Inv_VMMatchesLikePattern16(o) ==
+  o.accepted /\ o.outcome16 = "ok" /\ WellFormedProgram(o.prog16) =>
      \A s \in Strings16(o) : VMAccepts(o.prog16, s) <=> FullMatch(o.tree16, s)
 \* "run by the generated C++ matcher ..."
-Inv_CppMatcherAgrees ==
-  Judged /\ o.accepted /\ o.cpp # "none" =>
+C_Inv_CppMatcherAgrees(o) ==
+  o.accepted /\ o.cpp # "none" =>
      /\ o.cpp = "ran"
      /\ SeqToSet(o.cpp_accepted) = {Idx(s, o.alpha) : s \in {u \in Strings(o) : FullMatch(o.tree, u)}}
+
+\* every clause is evaluated once per observation, when the observation is taken up (Next): `failing` is the set of
+\* clauses the observation violates.  The invariants only look the names up, so that TLC -- which reports the first
+\* violated invariant of a state only -- still hands over *all* violated clauses of the case with the state it prints
+\* (a clause under a known finding cannot mask another clause on the same case).
+ClauseNames == {"Inv_EmittedWithoutError", "Inv_ProgramWellFormed", "Inv_VMMatchesLikePattern", "Inv_VMMatchesLikePattern16", "Inv_CppMatcherAgrees"}
+Holds(n, x) ==
+  CASE n = "Inv_EmittedWithoutError" -> C_Inv_EmittedWithoutError(x)
+    [] n = "Inv_ProgramWellFormed" -> C_Inv_ProgramWellFormed(x)
+    [] n = "Inv_VMMatchesLikePattern" -> C_Inv_VMMatchesLikePattern(x)
+    [] n = "Inv_VMMatchesLikePattern16" -> C_Inv_VMMatchesLikePattern16(x)
+    [] n = "Inv_CppMatcherAgrees" -> C_Inv_CppMatcherAgrees(x)
+FailingOf(x) == {n \in ClauseNames : ~Holds(n, x)}
+
+Blocks == 0..((N - 1) \div BlockSize)
+Init == blk \in Blocks /\ i = 0 /\ culprit = <<>> /\ failing = {}
+Next == /\ i = 0
+        /\ \E j \in (blk * BlockSize + 1)..(IF (blk + 1) * BlockSize < N THEN (blk + 1) * BlockSize ELSE N) :
+              i' = j /\ culprit' = CulpritOf(Obs[j]) /\ failing' = FailingOf(Obs[j])
+        /\ UNCHANGED blk
+
+Inv_EmittedWithoutError == "Inv_EmittedWithoutError" \notin failing
+Inv_ProgramWellFormed == "Inv_ProgramWellFormed" \notin failing
+Inv_VMMatchesLikePattern == "Inv_VMMatchesLikePattern" \notin failing
+Inv_VMMatchesLikePattern16 == "Inv_VMMatchesLikePattern16" \notin failing
+Inv_CppMatcherAgrees == "Inv_CppMatcherAgrees" \notin failing
 
 IsAccepted(x) == x.accepted
 Emitted(x) == x.accepted /\ x.outcome = "ok"
